@@ -36,6 +36,7 @@ set_option maxHeartbeats 1000000 in
 theorem prim_stop (a b : State) (hl : C05.Inv a) (p : Prim a b) : Stop a b := by
   cases p
   case cleanup => exact .clean rfl rfl (by simp [cleanup]) rfl rfl rfl rfl
+  case sockFaultClose => exact .clean rfl rfl (by simp [aSockFaultClose, cleanup, aStartExit, aSockAttachOnly]; rfl) rfl rfl rfl rfl
   case mark => exact .mark rfl rfl rfl rfl rfl rfl rfl
   case startOk g =>
     have e1 : ∀ x : State, (aStartFutCb x).st = x.st ∧ (aStartFutCb x).stops = x.stops ∧ (aStartFutCb x).onStopHeld = x.onStopHeld ∧
